@@ -18,7 +18,8 @@ EXPLANATION = (
     "the signature must be an ordered sequence; (R2) dominance: validation precedes every side effect in append_data, "
     "write_data_file and append_files; (R3) the Arrow-schema cache key must determine the cached value; (R4) "
     "Schema.__post_init__ raises on a missing key, duplicate id, duplicate name, unknown primitive type; (R5) a failed commit "
-    "cleans up (C04.R3).")
+    "cleans up (C04.R3)."
+    ' Also: every call of the validator reaches the signature comparison (no memo); the file-level validator compares full Arrow schemas.')
 NOT_DECIDED = ("value-level round trip through Arrow/Parquet for every type and value class; 'mis-filter' in general; what "
                "pyarrow accepts for a declared type")
 
